@@ -182,6 +182,18 @@ pub fn replay_spaces(mk: fn(Tier) -> Vec<Space>, case: &Value) -> Vec<(String, S
             if idx >= sp.size {
                 return vec![("machinery/replay-index-out-of-range".into(), format!("{} >= {}", idx, sp.size))];
             }
+            // VERIF_REPLAY_WINDOW=w: first run the w cases that precede idx in this space, in order, on this thread (their
+            // verdicts are discarded) - the way a worker thread of the explorer reaches idx. Used by the driver when a
+            // violation does not reproduce from a cold start: code under test that keeps state between calls (a static or
+            // thread-local cache) fails only after the right predecessor.
+            let w: u64 = std::env::var("VERIF_REPLAY_WINDOW").ok().and_then(|x| x.parse().ok()).unwrap_or(0);
+            if w > 0 {
+                let mut scratch = Acc::new();
+                for j in idx.saturating_sub(w)..idx {
+                    let c = Case { space: &sp.name, idx: j, tier };
+                    let _ = crate::engine::guard(|| (sp.eval)(&c, &mut scratch));
+                }
+            }
             let mut acc = Acc::new();
             let c = Case { space: &sp.name, idx, tier };
             (sp.eval)(&c, &mut acc);
